@@ -1749,6 +1749,10 @@ def check_C16(tier, seed, replay):
         route, gid, sname, proc, cmd, pf, text, cenv = job
         if route in ("lib", "buildscript") and os.path.exists(cmd[4]):
             os.remove(cmd[4])
+        if route == "buildscript" and proc >= 1:
+            # something lies at the destination already: an empty placeholder, or the beginning of a file
+            with open(cmd[4], "w") as f_:
+                f_.write("" if proc == 1 else "// This file was gener")
         r = run_door(cmd, extra_env=cenv)
         return r
 
